@@ -15,6 +15,10 @@ class User(NodeMixin):
     def __init__(self, i):
         self.i = i
         self.payload = [i, "p"]
+        # legitimate user attributes whose names resemble the library's bookkeeping
+        self._parent = "store-%d" % i
+        self._children = [i]
+        self.parent_ = None
 
 
 class Bucket(NodeMixin):
